@@ -18,6 +18,15 @@ CLAIMED = {
              "(distance == radius, odd/even n, off-centre, non-dividing sub-aperture counts) are inside the scope by construction.",
         note="Bounded scope (sizes in the cfg files); trusted: TLC, NumPy float exactness on binary fractions. "
              "Area -> pi r^2 is asymptotic and not decided."),
+    "C15": dict(
+        engine="tlc+replay", design_ref="DESIGN.md §3 C15",
+        technique="TLA+ spec ImageOps.tla (exact rational centroid operators, one action per code stage) model-checked by TLC for SinglePixel/Scale/Shift/Stack/CorrelationDisplacement/QuadMirror; every TLC state replayed into the real centroiders (2-D and N-D paths) and the relations evaluated on the real outputs",
+        text="Exhaustive model checking over all 3x3 images with values 0..2 (x thresholds x brightest-pixel counts), windowed 4x5 "
+             "images at every offset, 2x2 contents displaced in 4..7 pixel frames with paddings 1..3 and backgrounds, all 2x2 quad "
+             "cells; each TLC state is one implementation test in which scale, shift, stack-vs-frame, single-pixel and displacement "
+             "laws are checked on the real outputs and the value is compared with the model's exact rational.",
+        note="Bounded scope (cfg constants). Trusted: TLC, NumPy FFT to 1e-8 for the correlation. For thresholded centre of gravity "
+             "only the relations decide (value differences with all relations intact are impl_drift)."),
 }
 
 NOT_APPLICABLE = {
